@@ -408,6 +408,8 @@ def run_history(st: Stats, case):
                 mj.write_text("<html>404 not found</html>")
             elif kind == "wrongshape":
                 mj.write_text(json.dumps(arg))
+            elif kind == "binary":
+                mj.write_bytes(bytes(range(256)) * 2)
         # ---- build B
         if form == "relative":
             ext = "../A/doc"
@@ -537,7 +539,7 @@ def run_history(st: Stats, case):
             if leaked or not local_mod:
                 bad += 1
                 st.violation("external-entity-wins-over-local", stratum, dict(feats, entity=(leaked or ["alib"])[0]), inp, dict(external_links=leaked, local_module_page=local_mod, on_pages=sorted({p for n in leaked for p in alib_from.get(n, ())})[:5]), "B's own entities take precedence")
-        if damage is not None and linked_names and damage[0] in ("absent", "empty", "notjson"):
+        if damage is not None and linked_names and damage[0] in ("absent", "empty", "notjson", "binary"):
             bad += 1
             st.violation("links-from-unreadable-description", stratum, feats, inp, sorted(linked_names), "no external links")
         st.states.add(core.digest([sorted(linked_names), local_mod]))
@@ -849,6 +851,10 @@ def gen_cases(tier):
             for a1, a2 in (("default", "private"), ("private", "default"), ("nosrc", "alpha")):
                 yield (a1, a2, form, None, None, refs, "rebuild-between")
     damages = [("absent", None), ("empty", None), ("notjson", None), ("wrongshape", {}), ("wrongshape", []), ("wrongshape", {"modules": "x"}),
+               # not text at all; JSON values that are no collection; the metadata without the module list; tables given as lists
+               ("binary", None), ("wrongshape", None), ("wrongshape", 42), ("wrongshape", "modules"), ("wrongshape", {"ford-metadata": {}}),
+               ("wrongshape", {"ford-metadata": {}, "modules": [{"name": "alib", "external_url": "./module/alib.html", "obj": "module", "pub_procs": [], "pub_types": ["shape_t"], "pub_vars": None, "pub_absints": {}}]}),
+               ("wrongshape", {"ford-metadata": {}, "modules": [{"name": None, "external_url": None, "obj": "module", "pub_procs": {}, "pub_types": {}, "pub_vars": {}, "pub_absints": {}}]}),
                ("wrongshape", {"modules": [{"name": "alib"}]}), ("wrongshape", [1, 2, 3]), ("wrongshape", {"ford-metadata": {}, "modules": [None]}),
                # a description written by hand / another tool: flat URLs without any "/", empty URLs, URLs with a query
                ("wrongshape", {"ford-metadata": {"version": "7"}, "modules": [{"name": "alib", "external_url": "alib.html", "obj": "module", "pub_procs": {"asub": {"name": "asub", "external_url": "asub.html", "obj": "proc", "proctype": "Subroutine"}},
